@@ -6,7 +6,8 @@ inheriting the previous integrator's.
 
 Structural contract (whole-library write summaries of engine/frames.py, computed from the real sources): the transitive
 write set of every reb_integrator_<X>_part1 reachable from the dispatcher reb_integrator_part1 contains
-`gravity_ignore_terms` or `gravity`.  (Found as a genuine defect by a native probe: BS did not -- WHFast, then BS: relative
+`gravity_ignore_terms`, unless every value the integrator's part1/part2 closure assigns to r->gravity names a force routine
+that does not read the filter (MERCURIUS, TRACE, JACOBI, NONE).  (Found as a genuine defect by a native probe: BS did not -- WHFast, then BS: relative
 energy error 1.4; repaired by a fix: commit.)  Path sensitivity (assigned on every path) is not decided by this task."""
 from engine.api import Pack
 from engine import frames
@@ -29,17 +30,41 @@ def _(v):
     callees = sorted({frames.callee_name(n) for n in frames.walk(fn) if n.get("kind") == "CallExpr"} - {None})
     part1s = [c for c in callees if c.startswith("reb_integrator_") and c.endswith("_part1")]
     v.ground("dispatcher_calls_part1_functions", len(part1s) >= 10, str(part1s))
+    part2s = [c[:-1] + "2" for c in part1s]
     S = frames.Summaries(L)
-    S.compute(part1s)
-    for f in part1s:
-        s = S.sum.get(f)
-        v.ground("%s.analysed" % f, s is not None, "")
-        if s is None:
+    S.compute(part1s + part2s)
+    OWN = {"REB_GRAVITY_MERCURIUS", "REB_GRAVITY_TRACE", "REB_GRAVITY_JACOBI", "REB_GRAVITY_NONE"}   # routines that do not read the filter
+
+    def gravity_values(names, own_file):
+        """enumerators assigned to a member called `gravity` in those of the named functions that are defined in the
+        integrator's own source file (reb_calculate_acceleration's fall-back `gravity = BASIC` when no tree exists is not
+        the integrator's choice)"""
+        out = set()
+        for nm in names:
+            got = L.function(nm)
+            if got is None or got[0].path != own_file:
+                continue
+            for n in frames.walk(got[1]):
+                if n.get("kind") == "BinaryOperator" and n.get("opcode") == "=":
+                    lhs, rhs = frames.strip_casts(n["inner"][0]), frames.strip_casts(n["inner"][1])
+                    if lhs.get("kind") == "MemberExpr" and lhs.get("name") == "gravity":
+                        out.add((rhs.get("referencedDecl") or {}).get("name") or frames.expr_text(rhs))
+        return out
+    for f, f2 in zip(part1s, part2s):
+        s, s2 = S.sum.get(f), S.sum.get(f2)
+        v.ground("%s.analysed" % f, s is not None and s2 is not None, "")
+        if s is None or s2 is None:
             continue
         tops = {p.split(".")[0] for p in s.param_paths(0)}
         if tops <= {"messages", "status"}:
             # stub of an integrator that is not compiled in (WHFast512 without AVX512: raises an error and returns)
             v.ground("%s.is_error_stub_without_force_evaluation" % f, "reb_simulation_update_acceleration" not in s.calls, str(sorted(s.calls))[:300])
             continue
-        v.ground("%s.assigns_gravity_ignore_terms_or_gravity" % f, bool(tops & {"gravity_ignore_terms", "gravity", ""}),
-                 "members of the simulation written (transitively): %s" % sorted(tops)[:40])
+        gv = gravity_values({f, f2} | set(s.calls) | set(s2.calls), L.function(f)[0].path)
+        tops |= {p.split(".")[0] for p in s2.param_paths(0)} & {"gravity_ignore_terms"}     # EOS sets it before each of its own force calls
+        owns = bool(gv) and gv <= OWN
+        # an integrator whose steps only ever run its own force routine (one that does not read the filter) is exempt; every
+        # other integrator -- including one that switches to REB_GRAVITY_BASIC for a sub-integration -- must set the filter
+        v.ground("%s.assigns_gravity_ignore_terms_unless_it_only_uses_its_own_force_routine" % f,
+                 "gravity_ignore_terms" in tops or "" in tops or owns,
+                 "members written by part1 (transitively; plus the filter if part2 writes it): %s; values assigned to r->gravity during part1/part2: %s" % (sorted(tops)[:30], sorted(gv)))
